@@ -5,12 +5,14 @@ Design level : specs/ClosuresIdeal.tla is the property as a machine (create/drop
                Python function, with its own signature, and its result comes back).
                specs/Closures.tla transcribes src/c/malloc_closure.h (more_core with the 1.3 growth
                rule, the singly linked free list, alloc = pop, free = push) and the way b_callback /
-               cdataowninggc_dealloc / invoke_callback use it (user_data binding, the error path that
-               frees again); TLC explores every history of 3 callbacks x 2 signatures over blocks of
+               cdataowninggc_dealloc / invoke_callback use it (user_data binding, every failure exit of
+               b_callback after the closure was allocated: GC_New out of memory, unsupported signature,
+               ffi_prep_closure failure, bad user_data); TLC explores every history of 3 callbacks x 2 signatures over blocks of
                1, 2 and 3 slots (thorough: 4 callbacks) and checks the refinement, free /\\ live = {},
                no duplicates on the free list, LIFO reuse; three broken variants must be rejected.
 Binding      : sessions (one fresh process each, the allocator is process-wide) of create / failing
-               create / drop / call operations on real ffi.callback() objects with five signatures,
+               create (variadic signature; allocation failures injected into ffi.callback() with
+               _testcapi.set_nomemory) / drop / call operations on real ffi.callback() objects with five signatures,
                called through the cdata and from a C caller compiled at run time:
                spec -> code: walks covering the transitions of the explored graph, concatenated;
                code -> spec: random histories hovering around the real block boundaries (73, 219, 438,
